@@ -8,6 +8,7 @@ import numpy as np
 
 from . import c03
 from . import samplers_h as sh
+from . import swarm
 from . import tlc
 from .common import Check, quiet
 
@@ -75,6 +76,7 @@ def run(tier: str) -> int:
     results = sh.run_jobs(jobs)
     results.append(stub_events(tier, rng))
     results += sh.clip_events(150 if tier == "quick" else 3000, rng)
+    swarm.run_growth(chk, tier, random.Random(1650 + chk.seed))
     return c03.finish(chk, results, {"sample", "bestbatch", "select", "clip"},
                       "every built-in sampler called repeatedly on histories with ties and extreme / infinite / float32-overflowing losses "
                       "(history bytes compared before/after); best-batch over its option lattice (proposal = confined shock of one of the "
